@@ -175,7 +175,9 @@ Lemma R_amend cap rg t q p room src :
   if len p + len src <=? room
   then exists rg' t', ring_amend_write rg t src = (rg', t', ST_SUCCESS) /\
          R cap (rg', t') (mkS q (Some (p ++ src, room))) /\
-         read_head rg' = read_head rg /\ write_head rg' = write_head rg /\ size rg' = size rg
+         read_head rg' = read_head rg /\ write_head rg' = write_head rg /\ size rg' = size rg /\
+         size_mask rg' = size_mask rg /\
+         written (buf rg) (size rg) (tx_write_head t) src (buf rg')
   else ring_amend_write rg t src = (rg, t, ST_NO_MEM).
 Proof.
   intros (H & Ht & Hc & Ha & Htw & Hp & Hroom & Hlp & Hws). cbn [fst snd sq stx] in *.
@@ -194,7 +196,7 @@ Proof.
   destruct (len p + len src <=? room) eqn:E.
   - destruct (len src <=? room - len p) eqn:E'; [|lia].
     destruct A as (b' & Eq & Wr). exists (set_buf rg b'), (mkTx (tx_read_head t) ((tx_write_head t + len src) mod size rg)).
-    split; [exact Eq|]. split; [|split; [|split]; reflexivity].
+    split; [exact Eq|]. split; [|split; [|split; [|split; [|split]]]; try reflexivity; exact Wr].
     assert (I' : inv (set_buf rg b')).
     { destruct H as [Hk Hm _ _ Hl]. constructor; cbn; auto. destruct Wr as [Wl _]. lia. }
     assert (WSeq : ring_write_space (set_buf rg b') = ring_write_space rg).
@@ -282,7 +284,7 @@ Proof.
   change (len []) with 0 in HA. rewrite Z.add_0_l in HA.
   unfold ring_write.
   destruct (len src <=? cap - len (sq s)) eqn:E.
-  - destruct HA as (rg1 & t1 & Eq & HR1 & _ & _ & Hsz). rewrite Eq. cbn [negb Z.eqb ST_SUCCESS].
+  - destruct HA as (rg1 & t1 & Eq & HR1 & _ & _ & Hsz & _). rewrite Eq. cbn [negb Z.eqb ST_SUCCESS].
     cbn [app] in HR1. pose proof (R_commit _ _ _ _ _ _ HR1) as [HC _].
     exists (fst (ring_commit_write rg1 t1)). split; [reflexivity|].
     destruct HC as (Iv & _ & Hc & Ha & _). destruct HR as (_ & Ht & _).
